@@ -35,6 +35,8 @@ def _lists(draw, tier, kind):
     c["kind"] = kind
     if kind == "psth":
         n, q = g["n"], g["q"]
+        u = (1 << 14) if g.get("fine") else 1      # bins stay on the coarse grid
+        n, q = n // u, q // u
         if draw(st.sampled_from([True, True, False])):
             divs = [k for k in range(1, 17) if n % k == 0] or [1]
             k = draw(st.sampled_from(divs))
